@@ -38,13 +38,13 @@ RESULT_GUARDS = [
     ("BlsSignCrypt::create_decryption_share", "is_zero", ("re", r"as_field_element")),
     ("BlsSignCrypt::create_decryption_share", "is_identity", P_("u")),
     ("BlsTimeCrypt::seal", "is_identity", P_("pk")),
-    ("BlsElGamal::seal_scalar", "is_identity", ("re", r"unwrap_or_else\(Pgenerator")),
+    ("BlsElGamal::seal_scalar", "is_identity", ("opt-param", "generator")),
     ("BlsElGamal::seal_scalar", "is_identity", P_("pk")),
     ("BlsElGamal::seal_point", "is_identity", P_("pk")),
     ("BlsElGamal::seal_scalar_with_proof", "is_identity", P_("pk")),
     ("BlsElGamal::verify_and_decrypt", "is_zero", P_("sk")),
     ("BlsElGamal::verify_proof", "is_identity", P_("pk")),
-    ("BlsElGamal::verify_proof", "is_identity", ("re", r"unwrap_or_else\(Pgenerator")),
+    ("BlsElGamal::verify_proof", "is_identity", ("opt-param", "generator")),
     ("BlsElGamal::verify_proof", "is_identity", P_("c1")),
     ("BlsElGamal::verify_proof", "is_identity", P_("c2")),
     ("BlsElGamal::verify_proof", "is_zero", P_("message_proof")),
